@@ -931,6 +931,25 @@ def exact_on_integers(res, tu, f, s, what):
         res.ok(R3, '%s on %s stays in integer arithmetic' % (what, el))
 
 
+def resolved_callees(res, tu, f, v, rule):
+    """typed instances: anyLessThan / min / max on vector bounds resolve to vec.h's component-wise overloads (whose meaning
+    C04 decides), on scalar bounds to range.h's scalar anyLessThan / std::min / std::max"""
+    for name, q, node in v.callees:
+        if name not in ('anyLessThan', 'min', 'max'):
+            continue
+        args = tu.kids(node)[1:]
+        vec_args = [a for a in args if vecshape(tu.sd(a).get('ct') or '')]
+        cf = tu.callee_fn(node)
+        home = tu.fn_file(cf) if cf is not None else None
+        if vec_args:
+            if home != 'rkcommon/math/vec.h':
+                res.und(rule, '`%s` on vector operands resolves to %s (%s), not to the component-wise overload of vec.h' % (name, q, home))
+        else:
+            ok = (name == 'anyLessThan' and home == RANGE_H) or (name in ('min', 'max') and q in ('std::min', 'std::max'))
+            if not ok:
+                res.und(rule, '`%s` on scalar operands resolves to %s (%s)' % (name, q, home))
+
+
 RULE_OF = {'predicate': R1, 'extend': R2, 'clamp': R2, 'range constructor': R2, 'intersectionOf': R2,
            'infinity tag conversion': R2, 'pointer view': R2, 'stream output': R2, 'size/center': R3,
            'scale/translate': R3, 'area/volume': R3, 'xfmBounds': R4, 'intersectRayBox': R5}
@@ -975,6 +994,8 @@ def analyse(ctx, tu, label=''):
             continue
         if not res.items:
             ctx.undecided(RULE_OF.get(fam, R1), inst, 'family checker produced no result', loc)
+        if level == 'typed' and not any(it[0] != 'ok' for it in res.items):
+            resolved_callees(res, tu, f, v, RULE_OF.get(fam, R1))
         if level == 'typed' and fam in ('size/center', 'area/volume', 'scale/translate'):
             exact_on_integers(res, tu, f, s, s.name)
         ks = keysig(s)
